@@ -7,6 +7,8 @@ import importlib
 UNIT_MODULES = {
     "GenBatch": "gen_batch",
     "GenFmt": "gen_fmt",
+    "GenMissing": "gen_missing",
+    "GenNames": "gen_names",
     "GenReap": "gen_reap",
     "GenRunner": "gen_runner",
     "GenStages": "gen_stages",
